@@ -557,7 +557,7 @@ func c19Tags(in c19Input, obs []c19Obs) ([]string, bool) {
 func runC19(o Opts) {
 	n := 1500
 	if o.Tier == "thorough" {
-		n = 8000
+		n = 30000
 	}
 	if o.N > 0 {
 		n = o.N
